@@ -15,6 +15,7 @@ import (
 	"sort"
 	"strconv"
 	"sync"
+	"sync/atomic"
 
 	"verifharness/enc"
 
@@ -81,6 +82,7 @@ type caseRec struct {
 	FrameMut     O           `json:"frameMut"`
 	OthersBefore interface{} `json:"othersBefore"`
 	OthersAfter  interface{} `json:"othersAfter"`
+	EditSame     bool        `json:"editSame"`
 	Raw          string      `json:"raw"` // the plain JSON inputs as text, for replay files (ignored by the judge)
 	raw          O
 }
@@ -91,8 +93,14 @@ func safeMatch(p, m interface{}, bs match.Bindings) (res []match.Bindings, err e
 			err = fmt.Errorf("panic: %v", r)
 		}
 	}()
+	// (both entry points: the package function and the default matcher's method, which is what core calls)
+	if atomic.AddInt64(&entry, 1)%2 == 0 {
+		return match.DefaultMatcher.Match(p, m, bs)
+	}
 	return match.Match(p, m, bs)
 }
+
+var entry int64
 
 // runCase evaluates (p, m, bs) nEvals times with permuted map construction and
 // nConc concurrent evaluations of one shared pattern value.
@@ -139,6 +147,25 @@ func runCase(id int, kind string, p, m interface{}, bs match.Bindings, sigma mat
 		// the shared values must not have been modified either
 		if enc.Canon(enc.P(ps)) != enc.Canon(c.P) || enc.Canon(enc.V(ms)) != enc.Canon(c.M) || enc.Canon(enc.Bs(bss)) != enc.Canon(c.Bs) {
 			p0, m0, bs0 = ps, ms, bss
+		}
+	}
+	// a pattern value that has been matched is edited where it is (one property renamed, the size unchanged) and matched
+	// again: the answer is the one a fresh copy of the edited pattern gets
+	c.EditSame = true
+	if pm, is := p0.(map[string]interface{}); is && kind == "pure" && enc.Canon(enc.P(p0)) == enc.Canon(c.P) {
+		for _, k := range enc.SortedKeys(pm) {
+			if enc.IsVar(k) {
+				continue
+			}
+			v := pm[k]
+			delete(pm, k)
+			pm[k+"_renamed"] = v
+			r1, e1 := safeMatch(pm, build(m, nil), build(bs, nil).(match.Bindings))
+			r2, e2 := safeMatch(build(pm, nil), build(m, nil), build(bs, nil).(match.Bindings))
+			c.EditSame = enc.Canon(enc.Bss(r1)) == enc.Canon(enc.Bss(r2)) && errClass(e1) == errClass(e2)
+			delete(pm, k+"_renamed")
+			pm[k] = v
+			break
 		}
 	}
 	// arguments as observed after the calls
